@@ -1137,6 +1137,9 @@ class TransformSet:
             closure=fn.__closure__,
         )
         self.base_function.__ptera_discard__ = True
+        # A function that was tooled statically (@tooled, tooled.inplace)
+        # already reports all of its variables
+        self.base_is_tooled = getattr(fn, "__ptera_info__", None) is not None
         self._register(None, fn)
 
     def _conform(self, new):
@@ -1190,7 +1193,9 @@ class StackedTransforms:
             self.captures[cap] -= 1
 
     def get(self):
-        if self.instrument_count == 0:
+        if self.instrument_count == 0 or self.tset.base_is_tooled:
+            # Keep the full instrumentation of a statically tooled function:
+            # overlays may rely on variables that no probe has asked for
             caps = None
         else:
             caps = [cap for cap, count in self.captures.items() if count > 0]
